@@ -12,6 +12,7 @@ import (
 	"github.com/formancehq/ledger/internal/bus"
 	"github.com/formancehq/ledger/internal/engine/utils/batching"
 	"github.com/formancehq/ledger/internal/machine/vm"
+	"github.com/formancehq/ledger/internal/verifhook"
 	"github.com/formancehq/stack/libs/go-libs/collectionutils"
 	"github.com/formancehq/stack/libs/go-libs/metadata"
 	"github.com/pkg/errors"
@@ -86,8 +87,10 @@ func (commander *Commander) exec(ctx context.Context, parameters Parameters, scr
 				return nil, nil, NewErrConflict()
 			}
 			defer commander.referencer.release(referenceTxReference, script.Reference)
+			verifhook.Yield(ctx, "exec.ref.reserved")
 
 			_, err := commander.store.GetTransactionByReference(ctx, script.Reference)
+			verifhook.Yield(ctx, "exec.ref.checked")
 			if err == nil {
 				return nil, nil, NewErrConflict()
 			}
@@ -118,16 +121,19 @@ func (commander *Commander) exec(ctx context.Context, parameters Parameters, scr
 			Write: collectionutils.Filter(involvedSources, worldFilter),
 		}
 
+		verifhook.Yield(ctx, "exec.resolved")
 		unlock, err := commander.locker.Lock(ctx, lockAccounts)
 		if err != nil {
 			return nil, nil, errors.Wrap(err, "locking accounts for tx processing")
 		}
 		unlock(ctx)
+		verifhook.Yield(ctx, "exec.locked")
 
 		err = m.ResolveBalances(ctx, commander.store)
 		if err != nil {
 			return nil, nil, errors.Wrap(err, "could not resolve balances")
 		}
+		verifhook.Yield(ctx, "exec.balances")
 
 		result, err := vm.Run(m, script)
 		if err != nil {
@@ -149,6 +155,7 @@ func (commander *Commander) exec(ctx context.Context, parameters Parameters, scr
 		if parameters.IdempotencyKey != "" {
 			log = log.WithIdempotencyKey(parameters.IdempotencyKey)
 		}
+		verifhook.Yield(ctx, "exec.txbuilt")
 
 		return executionContext.AppendLog(ctx, log)
 	})
@@ -160,6 +167,7 @@ func (commander *Commander) CreateTransaction(ctx context.Context, parameters Pa
 		return nil, err
 	}
 
+	verifhook.Yield(ctx, "publish.before")
 	commander.monitor.CommittedTransactions(ctx, *log.Data.(ledger.NewTransactionLogPayload).Transaction, log.Data.(ledger.NewTransactionLogPayload).AccountMetadata)
 
 	return log.Data.(ledger.NewTransactionLogPayload).Transaction, nil
@@ -201,6 +209,7 @@ func (commander *Commander) SaveMeta(ctx context.Context, parameters Parameters,
 		return err
 	}
 
+	verifhook.Yield(ctx, "publish.before")
 	commander.monitor.SavedMetadata(ctx, targetType, fmt.Sprint(targetID), m)
 	return nil
 }
@@ -211,8 +220,10 @@ func (commander *Commander) RevertTransaction(ctx context.Context, parameters Pa
 		return nil, NewErrRevertTransactionOccurring()
 	}
 	defer commander.referencer.release(referenceReverts, id)
+	verifhook.Yield(ctx, "revert.reserved")
 
 	transactionToRevert, err := commander.store.GetTransaction(ctx, id)
+	verifhook.Yield(ctx, "revert.read")
 	if err != nil {
 		if storageerrors.IsNotFoundError(err) {
 			return nil, NewErrRevertTransactionNotFound()
@@ -238,6 +249,7 @@ func (commander *Commander) RevertTransaction(ctx context.Context, parameters Pa
 		return nil, err
 	}
 
+	verifhook.Yield(ctx, "publish.before")
 	commander.monitor.RevertedTransaction(ctx, log.Data.(ledger.RevertedTransactionLogPayload).RevertTransaction, transactionToRevert)
 
 	return log.Data.(ledger.RevertedTransactionLogPayload).RevertTransaction, nil
@@ -300,6 +312,7 @@ func (commander *Commander) DeleteMetadata(ctx context.Context, parameters Param
 		return err
 	}
 
+	verifhook.Yield(ctx, "publish.before")
 	commander.monitor.DeletedMetadata(ctx, targetType, targetID, key)
 
 	return nil
